@@ -15,7 +15,7 @@ From Coq Require Import String Ascii.
 Require Import Hdl21.Base.PyInt Hdl21.Spec.SimSpec Hdl21.Model.SimExport Hdl21.Proofs.C17Proofs.
 Require Import Hdl21.Base.Dec Hdl21.Model.C17Float Hdl21.Proofs.C17NearestProofs Hdl21.Proofs.C17FloatProofs.
 Require Import Hdl21.Proofs.C17RoundProofs.
-Require Import Hdl21Gen.C17Tables.
+Require Import Hdl21Gen.C17Tables Hdl21Gen.C17Names.
 Open Scope list_scope.
 Open Scope Z_scope.
 
@@ -134,13 +134,20 @@ Print Assumptions C17_fields_preserved.
 Print Assumptions C17_fields_nearest.
 Print Assumptions C17_nested_kept.
 
-(* 4. automatic names.  The name of the n-th unnamed analysis is "Analysis" followed by the decimal rendering of n;
-      that function is injective; the names given to the unnamed analyses of an attribute list, at all nesting
+(* 4. automatic names.  The name of the n-th unnamed analysis is a fixed prefix (the regenerated table entry
+      Hdl21Gen.C17Names.auto_name_prefix, read off the live exporter - the property does not fix its spelling) followed by
+      the decimal rendering of n; that function is injective, whatever the prefix; the names given to the unnamed analyses of an attribute list, at all nesting
       depths, outer before inner, are exactly auto_name k, auto_name (k+1), ... — hence pairwise distinct, for any
       number of unnamed analyses at any nesting. *)
 Theorem C17_auto_name_injective a b : auto_name a = auto_name b -> a = b.
 Proof. exact (auto_name_inj a b). Qed.
 Print Assumptions C17_auto_name_injective.
+Theorem C17_auto_name_injective_any_prefix p a b : auto_name_of p a = auto_name_of p b -> a = b.
+Proof. exact (auto_name_of_inj p a b). Qed.
+Print Assumptions C17_auto_name_injective_any_prefix.
+Example C17_auto_name_any_prefix_nonvacuous :
+  auto_name_of "unnamed_analysis_" 7 = "unnamed_analysis_7" /\ auto_name_of "A1" 0 <> auto_name_of "A1" 10 /\ auto_name_of "" 3 = "3".
+Proof. vm_compute. repeat split. discriminate. Qed.
 
 Theorem C17_auto_names_distinct l k os ans cs : xattrs l k = Ok (os, ans, cs) ->
   (exists n, map2cat invented (ans_of l) ans = map auto_name (nseq k n)) /\
@@ -390,17 +397,18 @@ Example C17_ex_pkg :
         ("Tb2", [(100%N, "Leaf"); (0%N, "Tb"); (1%N, "Tb2")])].
 Proof. vm_compute. reflexivity. Qed.
 
-(* five unnamed analyses over three nesting levels get Analysis0..Analysis4 (outer before inner), user names stay *)
+(* five unnamed analyses over three nesting levels get <prefix>0..<prefix>4 (outer before inner), user names stay *)
 Example C17_ex_names :
   match xattrs ex_attrs 0 with
-  | Ok (_, ans, _) => map2cat invented (ans_of ex_attrs) ans = ["Analysis0"; "Analysis1"; "Analysis2"; "Analysis3"; "Analysis4"] /\
-                      map oan_name ans = ["Analysis0"; "sw"; "Analysis4"]
+  | Ok (_, ans, _) => map2cat invented (ans_of ex_attrs) ans = [(auto_name 0); (auto_name 1); (auto_name 2); (auto_name 3); (auto_name 4)] /\
+                      map oan_name ans = [(auto_name 0); "sw"; (auto_name 4)]
   | Error _ => False
   end.
 Proof. vm_compute. split; reflexivity. Qed.
 
 (* decimal rendering of the counter: the tenth and hundredth unnamed analyses *)
-Example C17_ex_render : auto_name 10 = "Analysis10" /\ auto_name 109 = "Analysis109" /\ auto_name 0 = "Analysis0".
+Example C17_ex_render : auto_name 10 = String.append auto_name_prefix "10" /\ auto_name 109 = String.append auto_name_prefix "109"
+  /\ auto_name 0 = String.append auto_name_prefix "0" /\ auto_name_of "Analysis" 10 = "Analysis10".
 Proof. vm_compute. repeat split. Qed.
 
 (* the specification is not trivially true: a dropped control, swapped sweep bounds, a wrong float, a repeated
@@ -408,17 +416,17 @@ Proof. vm_compute. repeat split. Qed.
 Definition ex_fl (m e : Z) : dbl := DFin false m e.       (* any function will do for the float-image theorems *)
 Definition ex_one : sim := {| s_tb := ex_tb 0 "Tb"; s_attrs := [AtAn (AAc (NPre 1 0 0) (NPre 1 0 9) 10 None); AtCtrl (CInclude "a.sp"); AtAn (AOp None)] |}.
 Definition ex_out (a b : fnum) (n2 : string) (cs : list octrl) (pkg : list (N * string)) : siminput :=
-  {| o_top := "Tb"; o_pkg := pkg; o_opts := []; o_an := [OAc "Analysis0" a b 10; OOp n2]; o_ctrls := cs |}.
+  {| o_top := "Tb"; o_pkg := pkg; o_opts := []; o_an := [OAc (auto_name 0) a b 10; OOp n2]; o_ctrls := cs |}.
 Definition ex_pkg : list (N * string) := [(100%N, "Leaf"); (0%N, "Tb")].
 Example C17_ex_spec_discriminates :
   let f := frel_fl ex_fl in
-  rel f ex_one (ex_out (FDbl (ex_fl 1 0)) (FDbl (ex_fl 1 9)) "Analysis1" [XInclude "a.sp"] ex_pkg) = true /\
-  rel f ex_one (ex_out (FDbl (ex_fl 1 0)) (FDbl (ex_fl 1 9)) "Analysis1" [] ex_pkg) = false /\
-  rel f ex_one (ex_out (FDbl (ex_fl 1 9)) (FDbl (ex_fl 1 0)) "Analysis1" [XInclude "a.sp"] ex_pkg) = false /\
-  rel f ex_one (ex_out (FDbl (ex_fl 1 0)) (FDbl (ex_fl 10 8)) "Analysis1" [XInclude "a.sp"] ex_pkg) = false /\
-  rel f ex_one (ex_out (FDbl (ex_fl 1 0)) (FDbl (ex_fl 1 9)) "Analysis0" [XInclude "a.sp"] ex_pkg) = false /\
-  rel f ex_one (ex_out (FDbl (ex_fl 1 0)) (FDbl (ex_fl 1 9)) "Analysis1" [XInclude "a.sp"] ((7%N, "Tb") :: ex_pkg)) = false /\
-  rel f ex_one (ex_out (FDbl (ex_fl 1 0)) (FDbl (ex_fl 1 9)) "Analysis1" [XInclude "a.sp"] [(100%N, "Leaf")]) = false.
+  rel f ex_one (ex_out (FDbl (ex_fl 1 0)) (FDbl (ex_fl 1 9)) (auto_name 1) [XInclude "a.sp"] ex_pkg) = true /\
+  rel f ex_one (ex_out (FDbl (ex_fl 1 0)) (FDbl (ex_fl 1 9)) (auto_name 1) [] ex_pkg) = false /\
+  rel f ex_one (ex_out (FDbl (ex_fl 1 9)) (FDbl (ex_fl 1 0)) (auto_name 1) [XInclude "a.sp"] ex_pkg) = false /\
+  rel f ex_one (ex_out (FDbl (ex_fl 1 0)) (FDbl (ex_fl 10 8)) (auto_name 1) [XInclude "a.sp"] ex_pkg) = false /\
+  rel f ex_one (ex_out (FDbl (ex_fl 1 0)) (FDbl (ex_fl 1 9)) (auto_name 0) [XInclude "a.sp"] ex_pkg) = false /\
+  rel f ex_one (ex_out (FDbl (ex_fl 1 0)) (FDbl (ex_fl 1 9)) (auto_name 1) [XInclude "a.sp"] ((7%N, "Tb") :: ex_pkg)) = false /\
+  rel f ex_one (ex_out (FDbl (ex_fl 1 0)) (FDbl (ex_fl 1 9)) (auto_name 1) [XInclude "a.sp"] [(100%N, "Leaf")]) = false.
 Proof. vm_compute. repeat split. Qed.
 
 (* every save-target form, incl. the two list forms that the pinned tree refused *)
@@ -485,5 +493,5 @@ Proof. vm_compute. repeat split. Qed.
 Example C17_ex_computed :
   hier_wf ex_sims = true /\
   option_map (fun outs => map (fun o => hd (OOp "") (o_an o)) outs) (to_option (export_all_c round_dec ex_sims)) =
-  Some [OTran "Analysis0" (FDbl (DFin false 4835703278458517 (-82))) (FDbl (DFin false 0 (-1074))); OOp "Analysis0"; OOp ""].
+  Some [OTran (auto_name 0) (FDbl (DFin false 4835703278458517 (-82))) (FDbl (DFin false 0 (-1074))); OOp (auto_name 0); OOp ""].
 Proof. vm_compute. split; reflexivity. Qed.
